@@ -106,7 +106,7 @@ def gen_T12():
     iu2 = tree('src/ircutils.py')
     need("'%s!%s@%s' % (nick, ident, host)" in ast.unparse(find_def(iu2, 'joinHostmask')), 'joinHostmask changed')
     sh = ast.unparse(find_def(iu2, 'splitHostmask'))
-    need("nick, rest = hostmask.rsplit('!', 1)" in sh and "user, host = rest.rsplit('@', 1)" in sh, 'splitHostmask changed')
+    need("rest, host = hostmask.rsplit('@', 1)" in sh and "nick, user = rest.rsplit('!', 1)" in sh, 'splitHostmask changed')
     # ---- utils/str.py ----
     u = tree('src/utils/str.py')
     sb = find_def(u, 'splitBytes')
